@@ -128,7 +128,7 @@ def oracle(ctx, svc, snap, start, reqs, race, schedule):
 
 def run_worker(ctx):
     engc.run_cases(ctx, cgen.consumer_race_case, oracle,
-                   examples=ctx.pick(6, 120))
+                   examples=ctx.pick(6, 80))
 
 
 def replay(ctx, data):
